@@ -90,7 +90,8 @@ pub struct FaultOutcome {
     pub total_ops: u64,
     pub fired: u64,
     pub status: String,
-    pub classes: Vec<(u64, &'static str)>,
+    /// (ordinal, "class/file kind") of every faultable call of the reference run
+    pub classes: Vec<(u64, String)>,
 }
 
 /// Execute the plan with at most one injected fault.
@@ -204,7 +205,16 @@ pub fn run_fault(
     }
     raindb::verif::clear(ROOT);
     let classes = if record_classes {
-        fs.oplog().iter().map(|o| (o.index, o.class)).collect()
+        fs.oplog()
+            .iter()
+            .map(|o| {
+                let (kind, _) = crate::simfs::classify(
+                    std::path::Path::new(ROOT),
+                    std::path::Path::new(&o.path),
+                );
+                (o.index, format!("{}/{}", o.class, kind))
+            })
+            .collect()
     } else {
         vec![]
     };
